@@ -145,6 +145,12 @@ Proof.
     match goal with |- context [if ?b then _ else _] => destruct b end; cbn [map sname]; rewrite IH; reflexivity.
 Qed.
 
+Lemma md_ms_PN : forall c, PN (md_ms c) = PN c.
+Proof.
+  intros c. unfold PN, md_ms. cbn [cslots]. rewrite map_map. apply map_ext. intros s.
+  destruct (ustr_eqb (sname s) (u "created")); reflexivity.
+Qed.
+
 Lemma md_ms_slot_of : forall c n, ustr_eqb n (u "created") = false -> slot_of (md_ms c) n = slot_of c n.
 Proof.
   intros c n Hn. unfold slot_of, md_ms. cbn [cslots]. induction (cslots c) as [| s r IH]; cbn [map find]; [reflexivity |].
@@ -819,7 +825,7 @@ Section Knot.
         construct_generic vr ev w pattern_ok selectors_ok rcE rp ro (S f) cE allow interop kwE [] vrf = Ok obj /\
         plain_dict kwE = true /\ (forall n, n <> PVERSION -> alookup n kwE = alookup n kw) /\
         cid cE = cid c /\ (forall S0, defaulted_names cE S0 = defaulted_names c S0) /\
-        (forall n, n <> DEF -> n <> CREATED -> slot_of cE n = slot_of c n).
+        (forall n, n <> DEF -> n <> CREATED -> slot_of cE n = slot_of c n) /\ PN cE = PN c.
 
     Lemma effective_plain : forall c allow interop kw vrf obj,
       NoDup (map sname (cslots c)) -> forallb (slot_ok vr nestable) (cslots c) = true -> plain_dict kw = true ->
@@ -886,6 +892,7 @@ Section Knot.
           rewrite Ec'. destruct (slot_of c n) as [sl |] eqn:Esl; cbn [option_map]; [| reflexivity].
           destruct (slot_of_In c n sl Esl) as [_ En]. unfold wrap_slot. rewrite En.
           destruct (ustr_eqb n DEF) eqn:E2; [apply ustr_eqb_eq in E2; contradiction | reflexivity].
+        + rewrite wrap_PN. unfold c'. destruct (md_cls_cases vv t c kw) as [E | [_ E]]; rewrite E; [reflexivity | apply md_ms_PN].
       - apply effective_plain; auto.
     Qed.
   End Level.
